@@ -1,0 +1,164 @@
+//! Verification hooks (cargo feature `verif`): entry points that let an external harness drive
+//! the agent's real code paths over a harness-supplied NETCONF transport.
+#![allow(missing_docs, clippy::missing_errors_doc, clippy::missing_panics_doc)]
+use std::{
+    future::Future,
+    num::NonZeroU64,
+    pin::Pin,
+    sync::{Arc, Mutex},
+};
+
+use anyhow::Context;
+use clap::Parser;
+
+pub use crate::netconf::verif::TransportFactory;
+use crate::{
+    cli::{IrrdOpts, JunosOpts},
+    netconf::{verif::VerifTarget, Target},
+    policies::{verif as pverif, Candidate, Installed, Policies},
+    task::Updater,
+};
+
+#[derive(Debug, Parser)]
+struct Opts {
+    #[command(flatten)]
+    junos: JunosOpts,
+    #[command(flatten)]
+    irrd: IrrdOpts,
+}
+
+fn opts(irrd_host: &str, irrd_port: u16, ephemeral_db: &str) -> (IrrdOpts, JunosOpts) {
+    let opts = Opts::parse_from([
+        "verif".to_string(),
+        format!("--irrd-host={irrd_host}"),
+        format!("--irrd-port={irrd_port}"),
+        format!("--ephemeral-db={ephemeral_db}"),
+    ]);
+    (opts.irrd, opts.junos)
+}
+
+/// The agent's real one-shot run (`Updater::run`) over a harness-supplied transport.
+pub async fn run_once<F: TransportFactory>(
+    factory: F,
+    irrd_host: &str,
+    irrd_port: u16,
+    ephemeral_db: &str,
+) -> anyhow::Result<()> {
+    let (irrd, junos) = opts(irrd_host, irrd_port, ephemeral_db);
+    Updater::new(VerifTarget::new(factory), irrd, junos)
+        .run()
+        .await
+}
+
+/// The agent's real daemon loop (`Loop::start`) over a harness-supplied transport.
+pub async fn start_loop<F: TransportFactory>(
+    factory: F,
+    irrd_host: &str,
+    irrd_port: u16,
+    ephemeral_db: &str,
+    frequency: NonZeroU64,
+) -> anyhow::Result<()> {
+    let (irrd, junos) = opts(irrd_host, irrd_port, ephemeral_db);
+    Updater::new(VerifTarget::new(factory), irrd, junos)
+        .init_loop(frequency)
+        .start()
+        .await
+}
+
+/// Evaluation function standing in for the IRR: `(name, expression) -> (ipv4, ipv6)` ranges
+/// written as `prefix,lower,upper`, `None` for a failed evaluation.
+pub type EvalFn = dyn Fn(&str, &str) -> Option<(Vec<String>, Vec<String>)> + Send + Sync;
+
+/// The steps of `Updater::run` with the IRR evaluation replaced by `eval`: the real session,
+/// readers, `compare`, payload writer and load/commit/close sequence are used.
+pub async fn plan<F: TransportFactory>(
+    factory: F,
+    ephemeral_db: &str,
+    eval: &EvalFn,
+) -> anyhow::Result<()> {
+    let mut client = VerifTarget::new(factory)
+        .connect()
+        .await
+        .context("failed to establish NETCONF session")?
+        .open_db(ephemeral_db)
+        .await
+        .context("failed to open ephemeral database")?;
+    let candidates = client
+        .fetch_config::<Policies<Candidate>>()
+        .await
+        .context("failed to request candidate configuration")?;
+    let installed = client
+        .fetch_config::<Policies<Installed>>()
+        .await
+        .context("failed to request installed ephemeral configuration")?;
+    let candidates = candidates
+        .await
+        .context("failed to fetch candidate policy statements")?;
+    let installed = installed
+        .await
+        .context("failed to fetch installed policy statements")?;
+    let evaluated = pverif::evaluate_with(candidates, eval)?;
+    let updates = evaluated.compare(&installed);
+    client
+        .load_config(updates)
+        .await
+        .context("failed to load configuration")?
+        .commit_config()
+        .await
+        .context("failed to commit to ephemeral database")?;
+    client
+        .close_db()
+        .await
+        .context("failed to close ephemeral database")?
+        .close()
+        .await
+        .context("failed to close NETCONF session")?;
+    Ok(())
+}
+
+/// Fetch the managed (candidate) policy statements with the agent's real reader.
+pub async fn fetch_candidates<F: TransportFactory>(
+    factory: F,
+    ephemeral_db: &str,
+) -> anyhow::Result<Vec<(String, String)>> {
+    let mut client = VerifTarget::new(factory)
+        .connect()
+        .await?
+        .open_db(ephemeral_db)
+        .await?;
+    let policies = client.fetch_config::<Policies<Candidate>>().await?.await?;
+    Ok(pverif::candidates_to_plain(&policies))
+}
+
+/// Fetch the installed policy statements with the agent's real reader.
+pub async fn fetch_installed<F: TransportFactory>(
+    factory: F,
+    ephemeral_db: &str,
+) -> anyhow::Result<Vec<(String, Vec<String>, Vec<String>)>> {
+    let mut client = VerifTarget::new(factory)
+        .connect()
+        .await?
+        .open_db(ephemeral_db)
+        .await?;
+    let policies = client.fetch_config::<Policies<Installed>>().await?.await?;
+    Ok(pverif::installed_to_plain(&policies))
+}
+
+type Job = Pin<Box<dyn Future<Output = anyhow::Result<()>> + Send>>;
+type Script = Arc<dyn Fn() -> Job + Send + Sync>;
+
+static RUN_SCRIPT: Mutex<Option<Script>> = Mutex::new(None);
+
+/// Install (or remove) a scripted replacement for the body of `Updater::run`, used to drive the
+/// daemon loop under virtual time.
+pub fn set_run_script(script: Option<Script>) {
+    *RUN_SCRIPT.lock().unwrap_or_else(std::sync::PoisonError::into_inner) = script;
+}
+
+pub(crate) async fn scripted_run() -> Option<anyhow::Result<()>> {
+    let script = RUN_SCRIPT
+        .lock()
+        .unwrap_or_else(std::sync::PoisonError::into_inner)
+        .clone()?;
+    Some(script().await)
+}
